@@ -101,6 +101,12 @@ def make_items(tier, seed):
             out.append({"fam": fam, "src": src, "opt": opt, "uncompute": True})
     # the round trip is claimed for every compiler setting: circuits left un-uncomputed, both profiles,
     # and compilations that follow other compilations of the same source (history, see circ.compile_prog)
+    # generated programs with container arguments / tuple returns through the whole round trip
+    from .. import corpus2
+
+    for fam, src in corpus2.u_prog2(1500 if tier == "thorough" else 500)[100 : (400 if tier == "thorough" else 160)]:
+        if corpus.size_ok(src, 12, 90):
+            out.append({"fam": "prog2", "src": src, "opt": "default" if len(out) % 2 else "fast", "uncompute": True})
     stale = corpus.u_stale(full=True)[:: (8 if tier == "thorough" else 24)] + corpus.u_selfif(full=True)[:: (12 if tier == "thorough" else 48)]
     k = 0
     for fam, src in [p for p in P if p[0] != "sig"][:: (1 if tier == "thorough" else 3)] + stale:
@@ -112,7 +118,7 @@ def make_items(tier, seed):
         return out
     core = [sp for sp in out if sp["fam"] == "sig"]
     rest = [sp for sp in out if sp["fam"] != "sig"]
-    return slice_quick(core + rest, seed, len(core), 90)
+    return slice_quick(core + rest, seed, len(core), 120)
 
 
 # ---------------------------------------------------------------- twin mirroring
